@@ -940,6 +940,15 @@ def canon_image(base, var):
 
 def canon_exec(inp, ru):
     tc = SM.to_tables(inp)
+    if (len(inp["edges"]) + len(inp["mutations"])) % 2 and inp["edges"]:
+        # the same rows carrying an index (built for their sorted order, so stale for this order): what
+        # canonicalise does to the rows must not depend on whether index arrays happen to be attached
+        try:
+            tmp = SM.to_tables(dict(SM.ref_sort(inp, 0, False)))
+            tmp.build_index()
+            tc.indexes = tmp.indexes
+        except Exception:  # noqa: rows that cannot be indexed (bad references) stay without one
+            pass
     if ru:
         # remove_unreferenced=True is the documented default: spelled out, omitted, or None - the three
         # forms rotate over the inputs
